@@ -178,3 +178,7 @@ mod tests {
         Ok(())
     }
 }
+
+#[cfg(kani)]
+#[path = "/verif/harness/csi/index.rs"]
+mod verif_kani;
